@@ -274,6 +274,21 @@ func (s *distSys) Apply(op string) string {
 						}
 					}
 					s.resync(a[0])
+					// Lease mode: whether a re-ask whose persistence FAILED still counts as a renewal is not
+					// fixed by the property (it only forbids reclaiming a lease renewed within grace and
+					// leaking the unit). The reference follows the implementation: if the holder's slot now
+					// carries the current generation the lease was renewed in memory, else it was not. (A live
+					// lease is at most `grace` < 4 epochs old, so equality with the current generation cannot
+					// be a 2-bit coincidence.) Either way every later state is checked against that outcome.
+					if v, still := s.Held[a[0]]; still && s.l != nil {
+						gens := s.da.VerifC05Epoch().VerifC05Generations()
+						for i, u := range s.Usable {
+							idx := i + 1
+							if u == v && (gens[idx/4]>>(uint(idx%4)*2))&3 == byte(s.l.epoch%4) {
+								s.l.touch(a[0])
+							}
+						}
+					}
 				}
 				return "store-error"
 			}
